@@ -36,6 +36,18 @@ CHECKS = {
          "Conforming files/strings generated from random models must be accepted with exactly the written transitions, types, leap records and rule; every system zoneinfo file likewise; per valid base file each category of invalidity the property names is produced by a targeted mutation and must be rejected; random/mutated bytes and strings must neither panic, overflow nor allocate beyond 64x the input; zones accepted along the way, and hostile-but-valid zones, must answer queries on both routes. Sampling of an unbounded input space with structure-aware generators; the per-file truncation set is exhaustive for small files.",
          "Trusted: R-tz writer/strict reader/POSIX model (self-tested each run); the allocation bound is 64*len + 64 KiB. Mutants that coincidentally stay well-formed for the strict reference reader are not expected to be rejected. Offsets of 24 h or more are treated as out-of-range data (chrono's FixedOffset cannot carry them).",
          "DESIGN.md §4 C16"),
+ "C08": ("differential runtime monitor against the reference calendar for month stepping, every with_* replacement, NaiveWeek, n-th weekday, years_since, quarter/year_ce/days-in-month; dense product walk over year windows at MIN/0/2000/MAX plus boundary-biased and random arguments up to the integer extremes",
+         "A product walk (every date of year windows at both range ends, year 0 and modern years × month steps -50..50 × all small replacement arguments) is combined with boundary-biased samples (days 28-31, Feb 29, month counts hitting the exact distance to either range end, u32/i32 extremes and bit-field edges for replacement arguments, all 7 week starts near both range ends, all n 0..=255 for the n-th weekday). ~1e8 evaluations in quick, 3e9 in thorough. Sampling outside the walked windows.",
+         "Trusted: reference calendar. Month::num_days for years outside NaiveDate's range accepts None or the calendar length (docs and code differ); years_since from a Feb 29 base onto Feb 28 accepts k or k+1. DateTime<Tz> replacement is C04's.",
+         "DESIGN.md §4 C08"),
+ "C14": ("runtime soundness/completeness/contradiction monitors on Parsed: all 21 fields recomputed from a value by the reference calendar, a reference resolver written from the rustdoc decides what a field set denotes; all 2^14 date-field subsets for boundary days, random (thorough: all 2^21) subsets of all fields, single-field contradictions, hostile field values, setters twice",
+         "Every to_* resolution method is called on field sets derived from real values (sufficient, insufficient, with one contradicting or out-of-range field) and on independently random fields; a successful result is compared field by field with every supplied field (soundness), derived sufficient sets must give exactly the value (completeness), and the error kind is asserted only where the property names it. Subset enumeration is exhaustive for the 14 date fields on 44+ boundary days; the rest is sampling.",
+         "Trusted: reference calendar and the reference resolver in harness/src/props/c14.rs (self-checked on derived sets each run). Ambiguous situations (two-digit year groups resolved against a timestamp, missing second with a timestamp) are held only to 'error or sound success'.",
+         "DESIGN.md §4 C14"),
+ "C17": ("differential runtime monitor against i128 floor/ceil/nearest-multiple arithmetic on the wall-clock nanosecond count for DurationRound and SubsecRound (NaiveDateTime, DateTime<Utc>, DateTime<FixedOffset>), constructed multiples/ties/±1 cases, window and range ends, all 65536 digit counts, idempotence and error-class monitors",
+         "Inputs are constructed as k*span+d with d at 0, ±1, exact ties and ±1 around them, spans from 1 ns to i64::MAX incl. invalid ones, instants at the 64-bit-nanosecond window edges ±12 ns, the epoch, both range ends with offsets that push the wall clock out of range; every Ok result is re-applied (idempotence) and every Err must be of a kind that applies. ~8e7 evaluations quick, 2e9 thorough. Sampling of the instant × span × offset product.",
+         "Trusted: i128 oracle in harness/src/props/c17.rs (self-tested on rustdoc examples). Where the wall-clock and the UTC timestamp disagree about fitting 64 bits both Err(TimestampExceedsLimit) and the correct value are accepted. Leap-second inputs are only in the no-panic/error-class monitors for DurationRound.",
+         "DESIGN.md §4 C17"),
 }
 NOT_YET = {}
 
